@@ -255,7 +255,9 @@ ALPHABET = ["\x00", "\\", ".", "(", ")", "[", "]", "*", "+", "?", "^", "$", "|",
             # code points that codecs treat specially: byte order marks, noncharacters, the ends of the surrogate gap, separators
             "\ufeff", "\ufffe", "\uffff", "\ud7ff", "\ue000", "\u2028", "\x85", "\U00010000"]
 SPECIAL_TEXTS = ["", "\\u{48}", "\\u{0}", "\\x41", "\\u0041", "-5", "+5", "007", "12", "18446744073709551616", "a.", "ab", ".*",
-                 "(", "a|b", "[a", "\\", "\\\\", "0", "١", "1 ", "٣", "\ufeffab", "\ufeff", "a\ufeff", "\ufffea"]
+                 "(", "a|b", "[a", "\\", "\\\\", "0", "١", "1 ", "٣", "\ufeffab", "\ufeff", "a\ufeff", "\ufffea",
+                 # characters str.isdigit() / str.isdecimal() accept although they are not ASCII digits (superscripts, circled, other scripts)
+                 "\u00b2", "1\u00b9", "\u2460", "\u0663\u0661", "\uff11\uff12", "\u1369"]
 
 
 def texts(max_len=6):
